@@ -37,6 +37,10 @@ var (
 	fRollbSQL = dbF("EXEC", "^ROLLBACK")
 )
 
+func cancelF(kind, pattern string) fakedb.Fault {
+	return fakedb.Fault{Kinds: []string{kind}, Pattern: pattern, Count: 1, Action: "cancel"}
+}
+
 func regRule(action string) tcstub.Rule {
 	return tcstub.Rule{Kind: "BranchRegister", Count: 1, Action: action}
 }
@@ -54,6 +58,11 @@ func c02AutoFaults() []c02Fault {
 		{name: "commit+rollback1", db: []fakedb.Fault{fCommit, fRollb}},
 		{name: "reg-fail", tc: []tcstub.Rule{regRule("fail")}}, {name: "reg-transport", tc: []tcstub.Rule{regRule("transport")}},
 		{name: "reg-noreply", tc: []tcstub.Rule{regRule("noreply")}}, {name: "reg-conflict", tc: []tcstub.Rule{regRule("lock-conflict")}},
+		{name: "reg-fail-nocode", tc: []tcstub.Rule{regRule("fail-nocode")}},
+		// the caller's context expires between two calls of the bracket: that call is refused, the connection lives on
+		{name: "cancel-q", db: []fakedb.Fault{cancelF("QUERY", "FOR UPDATE")}},
+		{name: "cancel-s", db: []fakedb.Fault{cancelF("EXEC", "^(UPDATE|DELETE|INSERT)")}},
+		{name: "cancel-q2", db: []fakedb.Fault{cancelF("QUERY", `\) IN \(\(`)}},
 		{name: "reg-fail+rollback", db: []fakedb.Fault{fRollb, fRollbSQL}, tc: []tcstub.Rule{regRule("fail")}},
 	}
 	for _, k := range []int{1, 2, 5} {
@@ -68,6 +77,7 @@ func c02CommitFaults() []c02Fault {
 	return []c02Fault{{name: "none"}, {name: "begin", db: []fakedb.Fault{fBegin}}, {name: "uexec", db: []fakedb.Fault{fUExec}},
 		{name: "commit", db: []fakedb.Fault{fCommit}}, {name: "commit+rollback", db: []fakedb.Fault{fCommit, fRollb, fRollbSQL}},
 		{name: "reg-fail", tc: []tcstub.Rule{regRule("fail")}}, {name: "reg-conflict", tc: []tcstub.Rule{regRule("lock-conflict")}},
+		{name: "reg-fail-nocode", tc: []tcstub.Rule{regRule("fail-nocode")}},
 		{name: "report1", tc: []tcstub.Rule{repRule(1)}}, {name: "commit+report4", db: []fakedb.Fault{fCommit}, tc: []tcstub.Rule{repRule(4)}}}
 }
 
@@ -90,11 +100,11 @@ func c02Step(j int, s c02Stmt, conn string) (atrun.Step, StmtMeta) {
 		if !s.rows {
 			k = int64(900 + j)
 		}
-		st = atrun.Step{Op: "exec", Conn: conn, SQL: "UPDATE t_kv SET v = ? WHERE k = ?", Args: []atrun.Arg{atrun.I(int64(1000 + j)), atrun.I(k)}}
+		st = atrun.Step{Op: "exec", Conn: conn, Cancelable: conn == "", SQL: "UPDATE t_kv SET v = ? WHERE k = ?", Args: []atrun.Arg{atrun.I(int64(1000 + j)), atrun.I(k)}}
 	case "delete":
-		st = atrun.Step{Op: "exec", Conn: conn, SQL: "DELETE FROM t_kv WHERE k = ?", Args: []atrun.Arg{atrun.I(int64(j + 1))}}
+		st = atrun.Step{Op: "exec", Conn: conn, Cancelable: conn == "", SQL: "DELETE FROM t_kv WHERE k = ?", Args: []atrun.Arg{atrun.I(int64(j + 1))}}
 	default:
-		st = atrun.Step{Op: "exec", Conn: conn, SQL: "INSERT INTO t_kv (k, v) VALUES (?, ?)", Args: []atrun.Arg{atrun.I(int64(100 + j)), atrun.I(int64(1000 + j))}}
+		st = atrun.Step{Op: "exec", Conn: conn, Cancelable: conn == "", SQL: "INSERT INTO t_kv (k, v) VALUES (?, ?)", Args: []atrun.Arg{atrun.I(int64(100 + j)), atrun.I(int64(1000 + j))}}
 	}
 	m.Args = st.Args
 	return st, m
